@@ -277,7 +277,7 @@ mod verif_c04 {
         std::mem::forget(client);
     }
 
-    //@H name=c04_extensions props=C01,C20 fn=MetricBuilder::with_timestamp,with_sampling_rate :: timestamp and sampling rate are stored exactly as supplied (all u64 / all f64 bit patterns)
+    //@H name=c04_extensions props=C01,C02,C20 fn=MetricBuilder::with_timestamp,with_sampling_rate :: timestamp and sampling rate are stored exactly as supplied (all u64 / all f64 bit patterns)
     #[kani::proof]
     #[kani::unwind(5)]
     fn c04_extensions() {
